@@ -312,7 +312,9 @@ def evaluate(world, drv, plan=None, model_faults=None, oracles=("C01", "C04", "C
                 for p in after_state:
                     if p.startswith(fdir + b"/") and b"/" not in p[len(fdir) + 1:] and p not in before:
                         nm = p[len(fdir) + 1:]
-                        if single or nm == bn or re.fullmatch(re.escape(bn) + rb"_\d+", nm):
+                        mm = re.fullmatch(rb"(?s)(.*)_(\d+)", nm)
+                        shortened = bool(mm) and mm.group(1) == bn[:max(len(bn) - len(b"_" + mm.group(2) + b".trashinfo"), 0)]
+                        if single or nm == bn or re.fullmatch(re.escape(bn) + rb"_\d+", nm) or shortened:
                             got = d["dir"]
             return got
         if elig and (single or distinct) and (single or len(elig) == len([x for x in facts["items"] if x["entry"] is not None])):
@@ -338,6 +340,41 @@ def evaluate(world, drv, plan=None, model_faults=None, oracles=("C01", "C04", "C
                 res["tags"].append("c07:args:%d" % len(elig))
                 for got in gots:
                     res["tags"].append("c07:got:" + next((d["kind"] for d in facts["dirs"] if d["dir"] == got), "none"))
+    if "C03w" in oracles:
+        # what the real trash-put wrote: every new .trashinfo is conformant (Lean predicate C03.Holds on its bytes and
+        # the location its Path decodes to) and its DeletionDate is the time of trashing of THAT entry: under the
+        # sandbox clock (one hour per mutating call) a reading taken after the previous entry was moved and not after
+        # this info file was created
+        import datetime as _dt
+        from urllib.parse import unquote_to_bytes
+        from .sandbox import CLOCK_T0, CLOCK_STEP
+        problems = []
+        trace = obs["trace"]
+        moves = [i for i, rec in enumerate(trace) if rec[0] == "rename" and rec[2] == "ok"]
+        for pth, datestr in dates:
+            content = impl_after_raw[pth][1]
+            pm = re.search(rb"(?m)^Path=(.*)$", content)
+            loc = unquote_to_bytes(pm.group(1)) if pm else b""
+            if not drv.ask({"op": "c03holds", "content": hx(content), "loc": hx(loc)})["r"]:
+                problems.append("not conformant: %r" % content[:200])
+                continue
+            created = [i for i, rec in enumerate(trace) if rec[0] == "createExcl" and rec[2] == "ok" and rec[1] and
+                       bytes.fromhex(rec[1][0]) == pth]
+            if not created:
+                continue
+            idx = created[-1]
+            prev = max([i for i in moves if i < idx], default=-1)
+            try:
+                d = _dt.datetime.strptime(datestr.decode("ascii"), "%Y-%m-%dT%H:%M:%S")
+            except ValueError:
+                problems.append("unreadable date %r" % datestr)
+                continue
+            k = (d - CLOCK_T0).total_seconds() / CLOCK_STEP
+            if not (prev < k <= idx) or k != int(k):
+                problems.append("DeletionDate %s of %r is clock reading %s; the entry was trashed between calls %d and %d"
+                                % (datestr.decode(), pth, k, prev + 1, idx))
+        res["oracle"]["C03w"] = {"ok": not problems, "verdict": "C03.written-info: " + "; ".join(problems[:2]) if problems else "ok"}
+        res["tags"].append("c03w:new-infos:%d" % min(len(dates), 3))
     if "C08" in oracles:
         roots = [hx(d["dir"]) for d in facts["dirs"] if d["kind"] == "top" and d.get("insecure")]
         if roots:
